@@ -154,6 +154,7 @@ def e2e_dist(rs):
                 continue
             d["requests"] += 1
             d["http2_requests" if q[1] == "2" else "http1_requests"] += 1
+            d["upgrades"] = d.get("upgrades", 0) + (q[3] == "W")
             d["with_request_body"] += q[6] != "0"
             d["request_body_streamed_unknown_length"] += q[6] != "0" and q[8] == "0"
             d["large_body_over_8k"] += int(q[6]) > 8192 or int(q[10]) > 8192
@@ -460,7 +461,8 @@ PROPS = {
                 "only) reached through a transport that routes by scheme, host and effective port, each server stamping its identity on "
                 "the response, virtual time: per request a unique id in path, header and body pattern, HTTP/1.1 or HTTP/2, one of six "
                 "origins (two hosts; no port, :8080, the other scheme's default port, explicit default port, ws/wss scheme - so that pool "
-                "keys differing only in port or scheme occur together), GET/POST/PUT/DELETE/HEAD, path and query filler, request body 0-70 KB in "
+                "keys differing only in port or scheme occur together), GET/POST/PUT/DELETE/HEAD and protocol upgrades (101, then pattern "
+                "bytes both ways on the upgraded stream through the TokioIo bridge; HTTP/1.1-only origins), path and query filler, request body 0-70 KB in "
                 "chunks of 1 B - 100 KB with or without a declared length (every third request pauses between chunks), handler delay "
                 "0-100 ms, response status from a 7-entry table, response headers, response body 0-70 KB streamed in chunks, start time "
                 "in 1-3 rounds 500 ms apart (later rounds find pooled connections), 1 in 5 requests dropped by the caller 0-120 ms after "
@@ -470,7 +472,7 @@ PROPS = {
                     "(the model's connection rules); GET/HEAD bodies are only sent with a declared length",
                     "the model is message-level: byte-level integrity of streams is C08/C18, header rewriting C13",
                     "eligibility of a pooled HTTP/1 connection (not coupled to another request) is the pool's guarantee, C02",
-                    "upgraded connections and real sockets are not in the e2e stream"],
+                    "real sockets are not in the e2e stream (kernel acceptors: C09 srvk; kernel pipes: C18)"],
     },
     "C12": {
         "props_module": "HdModel.Props.C12",
